@@ -63,7 +63,10 @@ def main(argv=None):
                 panics.append((fs, p, str(e)))
     placements = run_consts(fss[0], ["vmplacements"])
     core = run_consts(fss[0], ["core"])[0]["core"]
-    rows, configs, core_end = T.build_rows(dumps, placements, core)
+    with ThreadPoolExecutor(16) as ex:
+        res = list(ex.map(lambda i: run_consts(fss[0], ["vmreserved", str(i)])[0], range(len(placements))))
+    reserved_by_placement = {r["placement"]: r["reserved"] for r in res}
+    rows, configs, core_end = T.build_rows(dumps, placements, core, reserved_by_placement)
     names = {s[0] for (_, specs) in rows for s in specs}
     T.emit(rows, names, os.path.join(E.LEAN_DIR, "MmtkModel", "Generated", "SpecTable.lean"))
     if a.replay:
